@@ -1,6 +1,7 @@
 package props
 
 import (
+	"strings"
 	"fmt"
 
 	"github.com/IBM/fluent-forward-go/fluent/protocol"
@@ -38,6 +39,13 @@ func C11(c *core.Ctx) {
 		obs := chunkObs(func() (string, error) { return protocol.GetChunk(enc) })
 		c.Eval()
 		c.Hist("corpus ext32 -> " + obs[:2])
+		if strings.HasPrefix(obs, "ok") {
+			// the quirk is gone (an implementation that skips ext32 values correctly): the theorem C11_agrees does not
+			// speak about these inputs and the model's refutation witness no longer describes the code; what remains
+			// to be decided is whether the answer is the specification's
+			c.Judge("c11-ext32-answer", "judge_chunk", []string{hx(enc), obs}, "GetChunk answers on a message holding an ext32-encoded value before the chunk key: the chunk must be the specification's")
+			continue
+		}
 		c.Corr("c11-getchunk", "get_chunk", []string{hx(enc)}, obs)
 		c.Judge("c11-ext32-skip", "judge_chunk", []string{hx(enc), obs}, "GetChunk on a well-formed message holding an ext32-encoded value before the chunk key")
 	}
